@@ -40,11 +40,11 @@ _C06_E_CALLEES = {"mmd_engine_parse_string": "logging contract", "mmd_engine_exp
 _C06_E_ASSUME = ["exported body shorter than 62 bytes (SINK_CAP of the ghost sink; the functions under contract never look at the body, no loop depends on it)",
                  "engine core (parser, exporter, package creators, stdio) by logging contract"]
 _PLAIN_OR_WRAPPED = "(!IS_PACKAGED(format)||format==FORMAT_EPUB||format==FORMAT_TEXTBUNDLE_COMPRESSED)"
-U("c06_engine_convert", ["C06"], "h_engine_convert", ["C06/engine.c"], ["mmd.c"], enforce="mmd_engine_convert",
+U("c06_engine_convert", ["C06", "C05"], "h_engine_convert", ["C06/engine.c"], ["mmd.c"], enforce="mmd_engine_convert",
   replace=_C06_E_REPL, lib=("lib/ds_sink.c",), native=None, timeout=120, cbmc_flags=["--object-bits", "10"], callees=_C06_E_CALLEES, assumptions=_C06_E_ASSUME)
-U("c06_engine_convert_to_data", ["C06"], "h_engine_convert_to_data", ["C06/engine.c"], ["mmd.c"], enforce="mmd_engine_convert_to_data",
+U("c06_engine_convert_to_data", ["C06", "C05"], "h_engine_convert_to_data", ["C06/engine.c"], ["mmd.c"], enforce="mmd_engine_convert_to_data",
   replace=_C06_E_REPL, lib=("lib/ds_sink.c",), native=None, timeout=120, cbmc_flags=["--object-bits", "10"], callees=_C06_E_CALLEES, assumptions=_C06_E_ASSUME + ["format != FORMAT_MMD (that arm: bounded unit c06_engine_convert_to_data_mmd)"])
-U("c06_engine_convert_to_file", ["C06"], "h_engine_convert_to_file", ["C06/engine.c"], ["mmd.c"], enforce="mmd_engine_convert_to_file",
+U("c06_engine_convert_to_file", ["C06", "C05"], "h_engine_convert_to_file", ["C06/engine.c"], ["mmd.c"], enforce="mmd_engine_convert_to_file",
   defines=["-DFILE_FORMATS=" + _PLAIN_OR_WRAPPED],
   replace=_C06_E_REPL, lib=("lib/ds_sink.c",), native=None, timeout=120, cbmc_flags=["--object-bits", "10"], callees=_C06_E_CALLEES,
   assumptions=_C06_E_ASSUME + ["formats: every short except FORMAT_TEXTBUNDLE, FORMAT_ODT, FORMAT_FODT, FORMAT_ITMZ (those: unit c06_engine_convert_to_file_pkg)"])
